@@ -2,6 +2,7 @@
 import os, re
 from vlib import common as C
 from vlib.simlib import build_sim_harness
+from props import c11_oracle as O
 
 LEAN_MODULES = ["CoapVerif.Props.C11"]
 NAMESPACE = "Coap.C11"
@@ -70,7 +71,15 @@ def gen_history(rng, nev=None):
             evs.append("adv:%d" % rng.choice([31000, 62000, 124000]))
         else:
             evs.append("del:%d" % rng.randrange(nres))
-    return "obs st=%d R=%s C=%d %s" % (st, rs, ncli, " ".join(evs[:nev + 4]))
+    evs = evs[:nev + 4]
+    if rng.random() < 0.5:
+        # fair tail: every outstanding Confirmable notification is acknowledged, then the I/O loop runs
+        for _ in range(2):
+            for c in range(ncli):
+                for k in range(8):
+                    evs.append("ack:%d:%d" % (c, 1000 + k))
+        evs += ["io", "io", "io"]
+    return "obs st=%d R=%s C=%d %s" % (st, rs, ncli, " ".join(evs))
 
 
 def note_index(rng):
@@ -101,13 +110,43 @@ def strip_client(s):
     return s.split(" ||", 1)[0] if s else s
 
 
+def consts_of(ctx):
+    d = getattr(ctx, "obsconst", None)
+    if d is None:
+        try:
+            from vlib.tables import run_extractor
+            d = run_extractor("obsconst", C.build_libcoap())
+        except Exception:
+            d = {}
+        ctx.obsconst = d
+    return d
+
+
 def judge(ctx, c):
     i, m = c["impl"], c["model"]
-    if i is None or m is None:
+    if i is None:
         return ("tie", "missing output")
-    if strip_client(i) != m:
-        return ("tie", first_diff(strip_client(i), m))
+    if i.startswith("crash"):
+        return ("spec", "[crash] the server process died: " + i[:300])
+    if i == "bad-op":
+        return None if m == "bad-op" else ("tie", "harness says bad-op, model says %s" % (m or "")[:100])
+    try:
+        viol = O.check(c["input"], i, consts_of(ctx))
+    except Exception as e:      # an unparsable trace is a broken correspondence, not a verdict
+        return ("tie", "oracle could not read the implementation's trace: %r" % (e,))
+    real = [v for v in viol if v[0] not in O.KNOWN_TAGS]
+    if real:
+        return ("spec", "[%s] %s" % real[0])
+    if m is None or strip_client(i) != m:
+        return ("tie", first_diff(strip_client(i), m or ""))
+    if viol:
+        return ("spec", "[%s] %s" % viol[0])
     return None
+
+
+def known(ctx, c):
+    m = re.match(r"\[([a-z-]+)\]", c.get("why") or "")
+    return O.KNOWN_TAGS.get(m.group(1)) if m else None
 
 
 def first_diff(i, m):
@@ -122,3 +161,43 @@ def first_diff(i, m):
 
 def nontrivial(c):
     return " n" in (c["impl"] or "")
+
+
+def tag_of(v):
+    m = re.match(r"\[([a-z-]+)\]", v[1]) if v else None
+    return (v[0], m.group(1) if m else None) if v else None
+
+
+def shrink(ctx, case):
+    """greedy deletion of events (largest chunks first) while the same kind of verdict remains"""
+    from vlib.runner import diff_side
+    import props.C11 as me
+    want = tag_of(judge(ctx, case))
+    if not want:
+        return case
+    head, evs = case["input"].split()[:4], case["input"].split()[4:]
+    best = case
+    chunk = max(1, len(evs) // 2)
+    rounds = 0
+    while chunk >= 1 and rounds < 40:
+        rounds += 1
+        cands = []
+        for i in range(0, len(evs), chunk):
+            e2 = evs[:i] + evs[i + chunk:]
+            if e2:
+                cands.append(e2)
+        cands = cands[:64]
+        lines = [" ".join(head + e2) for e2 in cands]
+        hit = None
+        for e2, cc in zip(cands, diff_side(ctx, me, lines)):
+            v = judge(ctx, cc)
+            if tag_of(v) == want:
+                cc["why"] = v[1]; hit = (e2, cc); break
+        if hit:
+            evs, best = hit
+            chunk = min(chunk, max(1, len(evs) // 2))
+        else:
+            if chunk == 1:
+                break
+            chunk //= 2
+    return best
